@@ -4,6 +4,7 @@ import (
 	"bytes"
 	"errors"
 	"fmt"
+	"math"
 	"strconv"
 	"strings"
 
@@ -40,7 +41,8 @@ func getScoreRange(left []byte, right []byte) (float64, float64, error) {
 			return leftRange, rightRange, errInvalidRange
 		}
 		if isLOpen {
-			leftRange++
+			// scores are float64: the smallest score above the bound, not bound+1
+			leftRange = math.Nextafter(leftRange, math.Inf(1))
 		}
 	}
 	rangeD = right
@@ -60,7 +62,7 @@ func getScoreRange(left []byte, right []byte) (float64, float64, error) {
 			return leftRange, rightRange, errInvalidRange
 		}
 		if isROpen {
-			rightRange--
+			rightRange = math.Nextafter(rightRange, math.Inf(-1))
 		}
 
 	}
